@@ -68,6 +68,16 @@ CTL = re.compile(r"[\x00-\x08\x0b\x0c\x0e-\x1f\x7f-\x9f]")
 ALL_CTYPES = ["application/json", "text/html", "text/css", "application/javascript", "application/x-protobuf", "application/grpc", "multipart/form-data; boundary=x", "application/x-www-form-urlencoded", "image/png", "application/zip", "application/msgpack", "application/dns-message", "application/vnd.ms-sync.wbxml", "text/plain", "application/octet-stream", "image/svg+xml", "bogus", "a/b; charset=\x9b"]
 
 
+# malformed Content-Type values: valueless / empty / '='-only parameters, unbalanced quotes, several slashes, non-ASCII, very long
+MALFORMED_CTYPES = [
+    "text/html; utf-8", "application/json; v2", "multipart/form-data; boundary", "text/plain;", "text/plain;;", "text/plain; ;charset=utf-8",
+    "text/plain; =", "text/plain; =utf-8", "text/plain; charset=", "text/plain; charset", "text/plain;charset=\"utf-8", "text/plain; charset='utf-8",
+    "text/html; a=b; c", "text//html", "text/html/extra; q", "/", "/json", "json/", "", " ", ";", ";;=", "text/plain; charset=utf-8; charset",
+    "application/json; \u00e9", "t\u00e9xt/pl\u00e4in; n\u00f6", "text/plain; " + "x" * 3000, "a/b; " + "p;" * 500, "image/png; \x00", "text/css;\tq",
+    "multipart/form-data; boundary; boundary=x", "application/x-www-form-urlencoded; charset", "application/grpc; proto", "application/dns-message; a",
+]
+
+
 def wrap(r, body, ct, kind):
     """-> (message, flow, wrapper name)"""
     if kind == "http3":
@@ -82,9 +92,13 @@ def wrap(r, body, ct, kind):
         f = tflow.tflow(resp=True)
         m = f.request if wk == "req" else f.response
         x = r.random()
-        if x < 0.65:
+        if x < 0.55:
             pass
-        elif x < 0.9:
+        elif x < 0.73:
+            # a malformed value, standalone or appended as parameters to the matching type
+            mal = r.choice(MALFORMED_CTYPES)
+            ct = mal if (ct is None or r.random() < 0.5) else ct.split(";")[0] + ";" + mal.partition(";")[2]
+        elif x < 0.92:
             ct = r.choice(ALL_CTYPES)
         else:
             ct = None
